@@ -161,3 +161,52 @@ def rpcmessage_contract():
         protected=["self", "context", "parameters", "state_machine", "self.pending_requests", "self.cancellers", "self.state_engine",
                    "self.state_engine.event_dispatcher", "self.reply_to"],
         modifies="ALL")
+
+
+def td_branch_has_terminated_contract():
+    return Contract(
+        TD + "TaskDispatcher.branch_has_terminated", types={"self": "obj", "execution_arn": "any", "branch_id": "any"},
+        requires=["isobj(self.state_engine)", "isdict(self.state_engine.branch_metadata)",
+                  # type invariant of the join state: per execution an object with a `results` dict of join records (dicts)
+                  "implies(isstr(execution_arn) and execution_arn in self.state_engine.branch_metadata, "
+                  "isobj(self.state_engine.branch_metadata[execution_arn]) and isdict(self.state_engine.branch_metadata[execution_arn].results))",
+                  "isstr(execution_arn)", "isnone(branch_id) or isstr(branch_id) or isint(branch_id)"],
+        ensures=[
+            ("C06:reads-the-terminated-mark", "iff(result == True, istrue(branch_id) and execution_arn in self.state_engine.branch_metadata and "
+                                              "istrue(self.state_engine.branch_metadata[execution_arn].results[branch_id].get('terminated')))"),
+            ("C06:is-a-flag", "isbool(result)"),
+        ],
+        raises={"KeyError": "istrue(branch_id) and execution_arn in self.state_engine.branch_metadata and "
+                            "not (branch_id in self.state_engine.branch_metadata[execution_arn].results)",
+                "AttributeError": None, "TypeError": None},
+        modifies=None)
+
+
+def cancel_task_contract():
+    """TaskDispatcher.cancel_task on its real body, one level (the recursive sweep over a child execution's cancellers goes
+    through this same contract)."""
+    CANC = "self.cancellers[event_id]"
+    return Contract(
+        TD + "TaskDispatcher.cancel_task", types={"self": "obj", "event_id": "any"},
+        requires=["isdict(self.cancellers)", "isdict(self.pending_requests)", "isobj(self.state_engine)",
+                  "isobj(self.state_engine.event_dispatcher)", "not same(self.cancellers, self.pending_requests)",
+                  "isstr(event_id)",
+                  "implies(event_id in self.cancellers and istrue(%s), isdict(%s) and not same(%s, self.cancellers) and "
+                  "not same(%s, self.pending_requests))" % (CANC, CANC, CANC, CANC),
+                  "implies(event_id in self.cancellers and istrue(%s) and %s.get('Type') != 'Timeout' and "
+                  "isstr(%s.get('TaskID')) and %s.get('TaskID') in self.pending_requests and istrue(self.pending_requests[%s.get('TaskID')]), "
+                  "istuple(self.pending_requests[%s.get('TaskID')]) and seqlen(self.pending_requests[%s.get('TaskID')]) == 8)"
+                  % ((CANC,) * 7),
+                  "implies(event_id in self.cancellers and istrue(%s), isstr(%s.get('TaskID')) or isnone(%s.get('TaskID')) or "
+                  "iscallable(%s.get('TaskID')) or isint(%s.get('TaskID')))" % ((CANC,) * 5)],
+        ensures=[
+            # C06 / C08: cancelling removes the canceller; a Wait's timer is cleared BEFORE its callback is told
+            # Task.Terminated; a task's pending request is removed before its callback is told
+            ("C06,C08:canceller-removed", "implies(old(event_id in self.cancellers and istrue(%s)), not (event_id in self.cancellers) or n_cb > old(n_cb))" % CANC),
+            ("C08:wait-timer-cleared", "implies(old(event_id in self.cancellers and istrue(%s) and %s.get('Type') == 'Timeout'), "
+                                       "n_clear >= old(n_clear) + 1)" % (CANC, CANC)),
+            ("C06:unknown-id-is-a-no-op", "implies(not old(event_id in self.cancellers and istrue(%s)), n_cb == old(n_cb) and n_clear == old(n_clear) "
+                                          "and unchanged(self.cancellers) and unchanged(self.pending_requests))" % CANC),
+        ],
+        raises={}, modifies="ALL", protected=["self", "self.cancellers", "self.pending_requests", "self.state_engine",
+                                            "self.state_engine.event_dispatcher"])
